@@ -73,7 +73,7 @@ Section Proto2.
                                                      map: AddDeleteChildren + applyChangeToConfig (in the Go map order
                                                      picked by [order]) + store *)
           (payload : N -> V -> Ch -> option Req)  (* SetRequest built at apply from the loaded view; None = build error *)
-          (record_applied : N -> V -> V -> V -> Ch -> V) (* stored map -> loaded applied values -> loaded view -> change
+          (record_applied : N -> N -> V -> V -> V -> Ch -> V) (* order -> index -> stored map -> loaded applied values -> loaded view -> change
                                                      -> stored map: Applied.Values += upd; store (same Atomix map) *)
           (touched : N -> V -> Ch -> V)           (* the loaded view after AddDeleteChildren mutated it (apply) *)
           (restore : V -> V -> V)                 (* UpdateStatus stores the loaded applied values again: store m va *)
@@ -387,7 +387,7 @@ Section Proto2.
                   let ev := EDev (DevSet t m (c_term C) (Some i) req a) in
                   match a with
                   | COk =>
-                    ([ev; EPutAValues t (record_applied i (c_avalues C) (aview C) (view C) ch);
+                    ([ev; EPutAValues t (record_applied (o_order o) i (c_avalues C) (aview C) (view C) ch);
                       EPutCfg t (C <| c_applied := i |> <| c_inline := touched i (view C) ch |> <| c_ainline := v_empty |>);
                       EPutProp k (P <| p_apply := Some Done |> <| p_term := c_term C |>)], requeue_next t P)
                   | _ =>
